@@ -4,6 +4,7 @@ package c12
 import (
 	"fmt"
 	"os"
+	"os/exec"
 	"path/filepath"
 	"strings"
 	"testing"
@@ -24,7 +25,7 @@ var spec = lib.Spec{
 		"(crash) a helper process performs Store under strace; every successful mutating syscall of the Store (after a marker syscall) is a crash point: the run is repeated with " +
 		"inject=<name>:signal=KILL:when=k for each, then a fresh cache object retrieves: must be a miss or exactly the previously stored or the new set; then a complete re-store + retrieve must give the new set. " +
 		"Crash cases = a fixed list of small shapes (x no/other existing entry x compressed/uncompressed), enumerated every run, + random sets. " +
-		"(conc) one process re-storing a key in a loop while 1-3 processes (own repository, shared cache dir) retrieve it: every retrieve is a miss or the complete set. " +
+		"(conc) one process re-storing a key (same contents) in a loop while another process (own repository, shared cache dir) retrieves it in a loop, kernel-chosen schedule: every retrieve is a miss or the complete set. " +
 		"Non-trivial = (rt) a hit after a re-store with different content or a retrieve into a dirty out dir; (crash) >= 1 crash point strictly inside a store of >= 2 files or over an existing entry; (conc) >= 1 hit and the storer overlapped. distinct = case JSON",
 	Assumptions: []string{
 		"same key => same declared output names (the key is a hash of the rule); contents may differ between stores",
@@ -62,19 +63,31 @@ type crashCase struct {
 }
 
 type concCase struct {
-	Compress   bool
-	Outs       []*lib.Node
-	Retrievers int
-	Rounds     int
+	Compress bool
+	Outs     []*lib.Node
+	Rounds   int // the storing process performs 20*Rounds stores
+}
+
+// rfaultCase: one path-based read of the cache entry fails with ENOENT during Retrieve (what the process
+// sees when the entry is evicted or replaced by another process at that moment).
+type rfaultCase struct {
+	Compress bool
+	Outs     []*lib.Node
 }
 
 type anyCase struct {
-	RT    *rtCase    `json:",omitempty"`
-	Crash *crashCase `json:",omitempty"`
-	Conc  *concCase  `json:",omitempty"`
+	RT     *rtCase     `json:",omitempty"`
+	Crash  *crashCase  `json:",omitempty"`
+	Conc   *concCase   `json:",omitempty"`
+	RFault *rfaultCase `json:",omitempty"`
 }
 
 func runAny(c anyCase, o *lib.Obs) error {
+	if only := os.Getenv("VERIF_ONLY"); only != "" && os.Getenv("VERIF_REPLAY") == "" { // development aid: run one sub-check
+		if (c.RT != nil && only != "rt") || (c.Crash != nil && only != "crash") || (c.Conc != nil && only != "conc") || (c.RFault != nil && only != "rfault") {
+			return nil
+		}
+	}
 	switch {
 	case c.RT != nil:
 		o.Label("rt")
@@ -85,6 +98,9 @@ func runAny(c anyCase, o *lib.Obs) error {
 	case c.Conc != nil:
 		o.Label("conc")
 		return runConc(*c.Conc, o)
+	case c.RFault != nil:
+		o.Label("rfault")
+		return runRFault(*c.RFault, o)
 	}
 	return nil
 }
@@ -226,7 +242,7 @@ func runRT(c rtCase, o *lib.Obs) error {
 			if err != nil {
 				return lib.Failf("unreadable-restore", "op %d: %v", i, err)
 			}
-			if d := lib.DiffEntries(cx.Expected(c.Versions[want]), got, lib.DiffOpts{}); d != "" {
+			if d := diffEntries(cx.Expected(c.Versions[want]), got, lib.DiffOpts{}); d != "" {
 				return lib.Failf("round-trip-differs", "op %d: key %d restored tree differs from version %d stored last (first = expected):\n%s", i, op.Key, want, d)
 			}
 			if restores[op.Key] > 0 {
@@ -362,7 +378,7 @@ func runCrash(c crashCase, o *lib.Obs) error {
 	if !hit {
 		return lib.Failf("miss-after-store", "uninterrupted Store by the helper process, then Retrieve missed")
 	}
-	if d := lib.DiffEntries(wantNew, got, lib.DiffOpts{}); d != "" {
+	if d := diffEntries(wantNew, got, lib.DiffOpts{}); d != "" {
 		return lib.Failf("round-trip-differs", "uninterrupted Store by the helper, restored tree differs (first = expected):\n%s", d)
 	}
 	// crash points
@@ -401,9 +417,9 @@ func runCrash(c crashCase, o *lib.Obs) error {
 		switch {
 		case !hit:
 			outcomes["miss"]++
-		case lib.DiffEntries(wantNew, got, lib.DiffOpts{}) == "":
+		case diffEntries(wantNew, got, lib.DiffOpts{}) == "":
 			outcomes["new"]++
-		case wantPrev != nil && lib.DiffEntries(wantPrev, got, lib.DiffOpts{}) == "":
+		case wantPrev != nil && diffEntries(wantPrev, got, lib.DiffOpts{}) == "":
 			outcomes["old"]++
 		default:
 			class := "partial-hit"
@@ -412,9 +428,9 @@ func runCrash(c crashCase, o *lib.Obs) error {
 			}
 			msg := fmt.Sprintf("%s; a later Retrieve reported a HIT but restored neither the new set", where)
 			if wantPrev != nil {
-				msg += " nor the previously stored one.\n-- against previous (first = expected):\n" + lib.DiffEntries(wantPrev, got, lib.DiffOpts{})
+				msg += " nor the previously stored one.\n-- against previous (first = expected):\n" + diffEntries(wantPrev, got, lib.DiffOpts{})
 			}
-			msg += "\n-- against new (first = expected):\n" + lib.DiffEntries(wantNew, got, lib.DiffOpts{})
+			msg += "\n-- against new (first = expected):\n" + diffEntries(wantNew, got, lib.DiffOpts{})
 			return lib.Failf(class, "%s", msg)
 		}
 		// a later complete store must repair whatever the crash left behind
@@ -428,7 +444,7 @@ func runCrash(c crashCase, o *lib.Obs) error {
 		if err != nil || !hit {
 			return lib.Failf("store-after-crash-misses", "%s; then a complete Store of the same key; Retrieve: hit=%v err=%v", where, hit, err)
 		}
-		if d := lib.DiffEntries(wantNew, got, lib.DiffOpts{}); d != "" {
+		if d := diffEntries(wantNew, got, lib.DiffOpts{}); d != "" {
 			return lib.Failf("store-after-crash-differs", "%s; then a complete Store of the same key; restored tree differs (first = expected):\n%s", where, d)
 		}
 	}
@@ -453,6 +469,21 @@ func runCrash(c crashCase, o *lib.Obs) error {
 	return nil
 }
 
+// diffEntries is lib.DiffEntries with long lines (file contents of several KiB) cut.
+func diffEntries(a, b []lib.Entry, o lib.DiffOpts) string {
+	d := lib.DiffEntries(a, b, o)
+	if d == "" {
+		return ""
+	}
+	lines := strings.Split(d, "\n")
+	for i, l := range lines {
+		if len(l) > 160 {
+			lines[i] = l[:160] + fmt.Sprintf("… (%d bytes)", len(l))
+		}
+	}
+	return strings.Join(lines, "\n")
+}
+
 func file(name, content string) *lib.Node { return &lib.Node{Name: name, Content: content} }
 func dirn(name string, ch ...*lib.Node) *lib.Node {
 	return &lib.Node{Name: name, Dir: true, Children: ch}
@@ -473,9 +504,209 @@ func crashShapes() [][2][]*lib.Node {
 	}
 }
 
+// ---- read faults during retrieve ---------------------------------------------------------------
+
+var readSide = []string{"openat", "open", "linkat", "link", "newfstatat", "fstatat64", "statx", "stat", "lstat", "readlinkat", "readlink", "faccessat", "faccessat2", "access"}
+
+func runRFault(c rfaultCase, o *lib.Obs) error {
+	if err := lib.StraceAvailable(); err != nil {
+		return &lib.Inconclusive{Msg: err.Error()}
+	}
+	helper, err := cx.Helper()
+	if err != nil {
+		return &lib.Inconclusive{Msg: err.Error()}
+	}
+	dir, cleanup := lib.Scratch("c12rf-")
+	defer cleanup()
+	s := cx.Spec{Repo: filepath.Join(dir, "repo"), CacheDir: filepath.Join(dir, "cache"), Compress: c.Compress,
+		Pkg: "pkg", Name: "t", Key: keys[1], Outs: cx.OutNames(c.Outs)}
+	if err := cx.WriteOuts(s, c.Outs); err != nil {
+		return &lib.Inconclusive{Msg: err.Error()}
+	}
+	if err := s.Store(); err != nil {
+		return &lib.Inconclusive{Msg: err.Error()}
+	}
+	hs := s
+	hs.Op = "retrieve"
+	specFile := filepath.Join(dir, "spec.json")
+	if err := hs.WriteSpec(specFile); err != nil {
+		return &lib.Inconclusive{Msg: err.Error()}
+	}
+	want := cx.Expected(c.Outs)
+	trace := append(append([]string{}, lib.MutatingSyscalls...), readSide...)
+	run := func(inj *lib.Inject) (*lib.StraceResult, error) {
+		if err := s.WipeOuts(); err != nil {
+			return nil, err
+		}
+		return lib.Strace(lib.StraceOpts{Trace: trace, Inject: inj, NoFollow: true, Dir: dir, Env: cx.HelperEnv()}, helper, specFile)
+	}
+	verdict := func(r *lib.StraceResult, where string) error {
+		if r.ExitCode != 0 {
+			return lib.Failf("retrieve-crashed", "%s: the retrieving process ended with exit %d / signal %q: %s", where, r.ExitCode, r.Killed, r.Stderr)
+		}
+		if !strings.Contains(string(r.Stdout), "retrieved=true") {
+			return nil
+		}
+		got, err := cx.SnapshotOuts(s)
+		if err != nil {
+			return lib.Failf("unreadable-restore", "%s: hit, but %v", where, err)
+		}
+		if d := diffEntries(want, got, lib.DiffOpts{}); d != "" {
+			return lib.Failf("hit-after-failed-read", "%s: Retrieve reported a HIT but the restored tree is incomplete (first = expected):\n%s", where, d)
+		}
+		return nil
+	}
+	base, err := run(nil)
+	if err != nil {
+		return &lib.Inconclusive{Msg: err.Error()}
+	}
+	calls, setup, seen := opCalls(base)
+	if !seen || base.ExitCode != 0 || !strings.Contains(string(base.Stdout), "retrieved=true") {
+		return &lib.Inconclusive{Msg: fmt.Sprintf("baseline retrieve unusable (exit %d, marker %v): %s %s", base.ExitCode, seen, base.Stdout, base.Stderr)}
+	}
+	if err := verdict(base, "no fault"); err != nil {
+		return err
+	}
+	isRead := map[string]bool{}
+	for _, n := range readSide {
+		isRead[n] = true
+	}
+	rel := map[string]int{}
+	n, hits := 0, 0
+	for _, cl := range calls {
+		rel[cl.Name]++
+		if !isRead[cl.Name] || !cl.OK() || !strings.Contains(cl.Line, s.CacheDir) {
+			continue
+		}
+		k := rel[cl.Name]
+		r, err := run(&lib.Inject{Syscall: cl.Name, When: setup[cl.Name] + k, Error: "ENOENT"})
+		if err != nil {
+			return &lib.Inconclusive{Msg: err.Error()}
+		}
+		if !r.Fired {
+			continue
+		}
+		n++
+		if strings.Contains(string(r.Stdout), "retrieved=true") {
+			hits++
+		}
+		if err := verdict(r, fmt.Sprintf("ENOENT injected into %s #%d of the retrieve (%s)", cl.Name, k, cl.Line)); err != nil {
+			return err
+		}
+	}
+	lib.Rec(spec).AddExtra("retrieve_faults_evaluated", int64(n))
+	o.LabelIf(c.Compress, "compressed")
+	o.LabelIf(hits > 0, "rfault_hit_despite_fault")
+	o.NonTrivial(n >= 2)
+	o.Sample(map[string]any{"compress": c.Compress, "outs": s.Outs, "faults": n, "hits_despite_fault": hits})
+	return nil
+}
+
 // ---- concurrency -------------------------------------------------------------------------------
 
+// runConc: a helper process stores the same output set under one key over and over (every store after the
+// first replaces an existing entry) while this process, as a plz working in another repository that shares
+// the cache directory, retrieves that key in a loop. The schedule is whatever the kernel does (exploration).
 func runConc(c concCase, o *lib.Obs) error {
+	helper, err := cx.Helper()
+	if err != nil {
+		return &lib.Inconclusive{Msg: err.Error()}
+	}
+	dir, cleanup := lib.Scratch("c12cc-")
+	defer cleanup()
+	st := cx.Spec{Repo: filepath.Join(dir, "storer"), CacheDir: filepath.Join(dir, "cache"), Compress: c.Compress,
+		Pkg: "pkg", Name: "t", Key: keys[1], Outs: cx.OutNames(c.Outs), Op: "store", Repeat: c.Rounds * 20}
+	rt := st
+	rt.Repo, rt.Op, rt.Repeat = filepath.Join(dir, "retriever"), "", 0
+	if err := cx.WriteOuts(st, c.Outs); err != nil {
+		return &lib.Inconclusive{Msg: err.Error()}
+	}
+	specFile := filepath.Join(dir, "spec.json")
+	if err := st.WriteSpec(specFile); err != nil {
+		return &lib.Inconclusive{Msg: err.Error()}
+	}
+	want := cx.Expected(c.Outs)
+	var procs []*exec.Cmd
+	n := 1 // concurrent stores of one key by several processes are a separate matter, see the check's level_note
+	for i := 0; i < n; i++ {
+		cmd := exec.Command(helper, specFile)
+		cmd.Env = cx.HelperEnv()
+		if err := cmd.Start(); err != nil {
+			return &lib.Inconclusive{Msg: err.Error()}
+		}
+		procs = append(procs, cmd)
+	}
+	done := make(chan error, len(procs))
+	for _, p := range procs {
+		go func(p *exec.Cmd) { done <- p.Wait() }(p)
+	}
+	hits, misses, overlapped, running := 0, 0, 0, len(procs)
+	var fail error
+	for iter := 0; iter < 200000 && fail == nil; iter++ {
+		select {
+		case <-done:
+			running--
+		default:
+		}
+		if running == 0 && iter > 0 {
+			break
+		}
+		if err := rt.WipeOuts(); err != nil {
+			fail = &lib.Inconclusive{Msg: err.Error()}
+			break
+		}
+		hit, err := rt.Retrieve()
+		if err != nil {
+			fail = &lib.Inconclusive{Msg: err.Error()}
+			break
+		}
+		if !hit {
+			misses++
+			continue
+		}
+		hits++
+		if hits > 1 {
+			overlapped++
+		}
+		got, err := cx.SnapshotOuts(rt)
+		if err != nil {
+			fail = lib.Failf("unreadable-restore", "concurrent retrieve %d reported a hit but the restored tree is unreadable: %v", iter, err)
+			break
+		}
+		if d := diffEntries(want, got, lib.DiffOpts{}); d != "" {
+			fail = lib.Failf("partial-hit-concurrent-restore", "retrieve #%d, running while another process re-stores the same key with the same contents, reported a HIT with an incomplete tree (first = expected):\n%s", iter, d)
+		}
+	}
+	for _, p := range procs {
+		p.Process.Kill()
+	}
+	for ; running > 0; running-- {
+		<-done
+	}
+	if fail != nil {
+		return fail
+	}
+	rec := lib.Rec(spec)
+	rec.AddExtra("conc_retrieves", int64(hits+misses))
+	rec.AddExtra("conc_hits", int64(hits))
+	// after everything has settled the entry must be there and complete
+	if err := rt.WipeOuts(); err != nil {
+		return &lib.Inconclusive{Msg: err.Error()}
+	}
+	if hit, _ := rt.Retrieve(); !hit {
+		return lib.Failf("miss-after-store", "after the storing process finished %d stores, Retrieve misses", st.Repeat)
+	}
+	got, err := cx.SnapshotOuts(rt)
+	if err != nil {
+		return lib.Failf("unreadable-restore", "%v", err)
+	}
+	if d := diffEntries(want, got, lib.DiffOpts{}); d != "" {
+		return lib.Failf("round-trip-differs", "after concurrent stores/retrieves the restored tree differs (first = expected):\n%s", d)
+	}
+	o.LabelIf(c.Compress, "compressed")
+	o.LabelIf(misses > 0 && hits > 0, "conc_hits_and_misses")
+	o.NonTrivial(hits >= 2 && overlapped > 0)
+	o.Sample(map[string]any{"compress": c.Compress, "outs": st.Outs, "stores": st.Repeat, "retrieves": hits + misses, "hits": hits})
 	return nil
 }
 
@@ -488,7 +719,7 @@ func TestC12(t *testing.T) {
 	rec := lib.Rec(spec)
 	shard, shards := lib.Shard()
 	// round-trip histories (rapid; also replays the listed findings first)
-	lib.Check(t, spec, lib.Scale(1500, 60000), genAny, runAny)
+	lib.Check(t, spec, lib.Scale(1000, 60000), genAny, runAny)
 	if t.Failed() {
 		return
 	}
@@ -498,6 +729,9 @@ func TestC12(t *testing.T) {
 	for i, sh := range shapes {
 		for _, withPrev := range []bool{false, true} {
 			for _, compress := range []bool{false, true} {
+				if !lib.Thorough() && compress && i != 1 && i != 5 {
+					continue // quick tier: the compressed store is one tarball whatever the shape; two shapes suffice
+				}
 				n++
 				if n%shards != shard || !ok {
 					continue
@@ -515,7 +749,7 @@ func TestC12(t *testing.T) {
 	rec.Subspace("fixed small output shapes x {no, other} existing entry x {plain, compressed}: all crash points of Store", int64(n), ok)
 	// random crash cases and concurrency cases: drawn from the rapid generators at seeds derived from the
 	// process seed (no shrinking: every evaluation costs seconds and the sets are small already)
-	for i := 0; i < lib.Scale(8, 240) && ok; i++ {
+	for i := 0; i < lib.Scale(4, 240) && ok; i++ {
 		c := rapid.Custom(genCrash).Example(int(lib.Seed()%1000003)*1000 + i)
 		ok = lib.Each(t, spec, c, runAny)
 	}
@@ -523,12 +757,25 @@ func TestC12(t *testing.T) {
 		c := rapid.Custom(genConc).Example(int(lib.Seed()%1000003)*1000 + i)
 		ok = lib.Each(t, spec, c, runAny)
 	}
+	// read faults during Retrieve: the fixed shapes (split over the shards), both cache kinds; thorough adds random sets
+	n = 0
+	for _, sh := range shapes {
+		for _, compress := range []bool{false, true} {
+			n++
+			if n%shards == shard && ok && (lib.Thorough() || n%3 == 0) {
+				ok = lib.Each(t, spec, anyCase{RFault: &rfaultCase{Compress: compress, Outs: sh[0]}}, runAny)
+			}
+		}
+	}
+	for i := 0; i < lib.Scale(0, 160) && ok && lib.Thorough(); i++ {
+		c := rapid.Custom(genConc).Example(int(lib.Seed()%1000003)*1000 + 500 + i)
+		ok = lib.Each(t, spec, anyCase{RFault: &rfaultCase{Compress: c.Conc.Compress, Outs: c.Conc.Outs}}, runAny)
+	}
 }
 
 func genConc(t *rapid.T) anyCase {
-	return anyCase{Conc: &concCase{Compress: rapid.Bool().Draw(t, "compress"), Retrievers: rapid.IntRange(1, 3).Draw(t, "retrievers"),
-		Rounds: rapid.IntRange(5, 20).Draw(t, "rounds"),
-		Outs:   cx.GenOuts(t, cx.GenOpts{MaxOuts: 2, Meta: true, Fanout: 4, MaxDepth: 2})}}
+	return anyCase{Conc: &concCase{Compress: rapid.Bool().Draw(t, "compress"), Rounds: rapid.IntRange(5, 20).Draw(t, "rounds"),
+		Outs: cx.GenOuts(t, cx.GenOpts{MaxOuts: 2, Meta: true, Fanout: 4, MaxDepth: 2})}}
 }
 
 func genCrash(t *rapid.T) anyCase {
